@@ -623,17 +623,31 @@ class DBCMeta(abc.ABCMeta):
 
 
     def __setattr__(cls, name: str, value: Any) -> None:
-        """Set the attribute and add the invariant checks to a function assigned to an already created class."""
+        """Set the attribute and add the invariant checks to a function or a property assigned to an already created class."""
         super().__setattr__(name, value)
 
-        # A function can be assigned to the class after the class has been created (*e.g.*, ``dataclasses.dataclass``
+        # A function (or a property) can be assigned to the class after the class has been created (*e.g.*, ``dataclasses.dataclass``
         # generates the constructor and assigns it to the class). It has to check the invariants as any other function
         # defined in the class body.
-        if (
-            inspect.isfunction(value)
-            and len(getattr(cls, "__invariants__", [])) > 0
-            and not icontract._checkers._already_decorated_with_invariants(func=value)
-        ):
+        if len(getattr(cls, "__invariants__", [])) == 0:
+            return
+
+        if inspect.isfunction(value):
+            needs_checks = not icontract._checkers._already_decorated_with_invariants(
+                func=value
+            )
+        elif isinstance(value, property):
+            needs_checks = any(
+                accessor is not None
+                and not icontract._checkers._already_decorated_with_invariants(
+                    func=accessor
+                )
+                for accessor in (value.fget, value.fset, value.fdel)
+            )
+        else:
+            needs_checks = False
+
+        if needs_checks:
             icontract._checkers.add_invariant_checks(cls=cls)
 
 
